@@ -155,6 +155,7 @@ def regen_consts(mod, binary):
     lines.append("end Hy.Gen")
     text = "\n".join(lines) + "\n"
     path = os.path.join(LEAN, "Hy", "Gen", mod.capitalize() + ".lean")
+    os.makedirs(os.path.dirname(path), exist_ok=True)  # Hy/Gen is untracked: absent in a fresh checkout
     old = open(path).read() if os.path.exists(path) else None
     if old != text:
         with open(path, "w") as f:
@@ -164,6 +165,7 @@ def regen_consts(mod, binary):
 
 def write_gen_file(name, text):
     path = os.path.join(LEAN, "Hy", "Gen", name + ".lean")
+    os.makedirs(os.path.dirname(path), exist_ok=True)
     old = open(path).read() if os.path.exists(path) else None
     if old != text:
         with open(path, "w") as f:
